@@ -49,6 +49,8 @@ namespace occa {
     std::string buildIndexForLoop(occa::scope &scope,
                                   const std::string &iteratorName,
                                   const std::string &forAttribute) const;
+
+    std::string buildIteratorInitializer(const std::string &iteratorName) const;
   };
 
   class tileIteration {
